@@ -131,7 +131,7 @@ func sameCell(a, b any) bool {
 // when something CHANGED.
 func (s *Snapshot) Report() map[string]any {
 	rep := map[string]any{"res_bytes": false, "res_equal": false, "res_presence": false,
-		"env_header": false, "env_cells": false, "env_spare": false, "env_content": false, "detail": ""}
+		"env_header": false, "env_cells": false, "env_spare": false, "env_content": false, "reeval_differs": false, "detail": ""}
 	detail := ""
 	for i, r := range s.res {
 		if !bytes.Equal(detBytes(r), s.bytes[i]) {
